@@ -7,7 +7,7 @@ ENGINES = [
                        'reader (mc/mpd.py) + independent ISO-BMFF reader (mc/bmff.py) + synthetic media writer '
                        '(mc/synth.py); clock transition system over critical instants'},
     {'name': 'explorer', 'path': 'mc/explorer.py',
-     'serves_properties': ['C19', 'C20'],
+     'serves_properties': ['C08', 'C09', 'C19', 'C20'],
      'kind_free_text': 'explicit-state BFS over operation histories of the real object (rebuild + replay), '
                        'canonical-state de-duplication, deviation-level product enumeration'},
 ]
@@ -147,5 +147,19 @@ CHECKS['C07'] = dict(
          '(three black-box forwarding rules), and fetched.',
     note='"Accepted" = after the template restrictions/features are applied exactly as calculate_options() does; '
          'time-of-day error positions are translated by design and are not compared.')
+
+CHECKS['C09'] = dict(
+    engine='explorer',
+    technique='explicit-state search over clock-advance histories; pairwise document relation + independent XML patch application',
+    design_ref='DESIGN.md §7 C09',
+    text='From every start instant of 9 configurations (timeline templates, patches on/off, explicit/epoch/today/month '
+         'starts incl. day-boundary anchors, fixture and irregular synthetic streams) all clock histories of <= 3 '
+         '(quick) / 4 (thorough) advances over a 10-13 element delta alphabet (1 ms ... loop+1 ms, ttl+-1 s) are '
+         'explored, de-duplicated by instant; on every edge T1->T2 the two manifests must agree on every shared '
+         'segment, windows and publishTime/AST must not move backward, and the patch fetched from the T1 '
+         'PatchLocation at T2, applied with mc/xmlpatch.py, must reproduce publishTime, PatchLocation and every '
+         'SegmentTimeline of the T2 manifest, with originalPublishTime/mpdId matching.',
+    note='Segment and patch clauses are demanded only while availabilityStartTime is unchanged; replacement elements '
+         'compared by local name.')
 
 NOT_BUILT = {}
